@@ -510,7 +510,7 @@ func runC04(c *Ctx) error {
 			c.Sample(map[string]any{"cfg": fmt.Sprint(cf), "fault": fault, "message": target, "A": ea.stage, "B": eb.stage})
 		}
 	}
-	if err := c04Impostor(c); err != nil {
+	if err := c04ImpostorAndCrossWired(c); err != nil {
 		return err
 	}
 	return nil
@@ -544,6 +544,13 @@ func c04Relay(X, Y *rnode, xClient bool) (ex, ey *c04End, err error) {
 		toX, toY = nx, ny
 	}
 	return ex, ey, nil
+}
+
+func c04ImpostorAndCrossWired(c *Ctx) error {
+	if err := c04Impostor(c); err != nil {
+		return err
+	}
+	return c04CrossWired(c)
 }
 
 // c04Impostor: sequences of connection attempts by an endpoint that never holds the private key of
@@ -604,6 +611,72 @@ func c04Impostor(c *Ctx) error {
 					c.Violate("after a rejected handshake the router's state binds the claimed address to a key it is not derived from (attempts: "+strings.Join(trace, "; ")+")", "impostor-binding", rep)
 				}
 			}
+		}
+	}
+	return nil
+}
+
+// c04CrossWired: a party holding no key at all connects the router to ITSELF: it accepts a
+// connection the router dials and dials the router at the same time, and passes every message of
+// the one connection into the other, unchanged.  Each message is then a genuine, correctly signed
+// message of the router's own address carrying the right challenge; only the rule that a router
+// never peers with itself stands in the way.  Neither connection may complete and no link to the
+// router's own address may appear.
+func c04CrossWired(c *Ctx) error {
+	for s, n := 0, c.Pick(6, 30); s < n; s++ {
+		w := newRWorld()
+		st := config.Store{Router: config.Router{Listen: []string{"tcp:47369"}}}
+		if s%3 == 1 {
+			st.Router.Universe, st.Router.UniverseSecret = "u1", "cross-wired-secret"
+		}
+		V, err := w.addNode("V", st, nil)
+		if err != nil {
+			return err
+		}
+		firstClient := s%2 == 0
+		s1, f1, err := V.pe.VerifNewPeeringState(firstClient)
+		if err != nil {
+			return err
+		}
+		// the second connection opens a little later (signing times have millisecond resolution)
+		time.Sleep(time.Duration(3+s%3) * time.Millisecond)
+		s2, f2, err := V.pe.VerifNewPeeringState(!firstClient)
+		if err != nil {
+			return err
+		}
+		d1, _ := f1.FrameDataWithMargins(0, 0)
+		d2, _ := f2.FrameDataWithMargins(0, 0)
+		e1 := &c04End{n: V, st: s1, client: firstClient, first: append([]byte(nil), d1...), chal: s1.Challenge(), stage: -1}
+		e2 := &c04End{n: V, st: s2, client: !firstClient, first: append([]byte(nil), d2...), chal: s2.Challenge(), stage: -1}
+		// the older connection's message is passed on first, so that the router's own timestamps arrive in order
+		to2, to1 := e1.first, e2.first
+		for round := 0; round < 4; round++ {
+			var n1, n2 []byte
+			if to2 != nil {
+				n1 = e2.feed(to2)
+			}
+			if to1 != nil {
+				n2 = e1.feed(to1)
+			}
+			to1, to2 = n1, n2
+		}
+		c.Eval()
+		c.Count("cross-wired-self-connection")
+		c.NonTrivial(fmt.Sprintf("cross-wired/%v/%d/%d", firstClient, e1.stage, e2.stage))
+		rep := map[string]any{"first_dials": firstClient, "stage_first": e1.stage, "stage_second": e2.stage, "err_first": fmt.Sprint(e1.lastErr), "err_second": fmt.Sprint(e2.lastErr)}
+		for k, e := range []*c04End{e1, e2} {
+			done := e.stage == 0
+			if done {
+				if l, ferr := e.st.Finalize(); ferr != nil || l == nil {
+					done = false
+				}
+			}
+			if done {
+				c.Violate(fmt.Sprintf("connection %d of a router cross-wired to itself by a keyless party completed the handshake (peer reported: %s)", k+1, e.st.RemoteIP()), "cross-wired-completed", rep)
+			}
+		}
+		if V.pe.GetLink(V.id.IP) != nil {
+			c.Violate("a link to the router's own address is registered after a cross-wired self-connection", "cross-wired-link", rep)
 		}
 	}
 	return nil
